@@ -127,29 +127,30 @@ End HarnessSim.
 (** * Input bits as variables *)
 Definition BIG : N := 1048576.    (* 2^20: bound on the number of words of a buffer *)
 
-(** variable of bit j of word p of buffer b *)
-Definition enc (b p j : nat) : N := ((N.of_nat b * BIG + N.of_nat p) * 64 + N.of_nat j)%N.
+(** variable of bit j of word p of buffer b (indices in N: they are computed with in the sweeps) *)
+Definition enc (b p j : N) : N := ((b * BIG + p) * 64 + j)%N.
 
 Definition rho_of (bufs : list (list Z)) (k : N) : bool :=
   let q := (k / 64)%N in
   Z.testbit (nth (N.to_nat (q mod BIG)) (nth (N.to_nat (q / BIG)) bufs []) 0) (Z.of_N (k mod 64)).
 
-Lemma rho_enc bufs b p j : (N.of_nat p < BIG)%N -> (j < 64)%nat ->
-  rho_of bufs (enc b p j) = Z.testbit (nth p (nth b bufs []) 0) (Z.of_nat j).
+Lemma rho_enc bufs b p j : (p < BIG)%N -> (j < 64)%N ->
+  rho_of bufs (enc b p j) = Z.testbit (nth (N.to_nat p) (nth (N.to_nat b) bufs []) 0) (Z.of_N j).
 Proof.
   intros Hp Hj. unfold rho_of, enc, BIG in *.
-  replace (((N.of_nat b * 1048576 + N.of_nat p) * 64 + N.of_nat j) / 64)%N with (N.of_nat b * 1048576 + N.of_nat p)%N by lia.
-  replace (((N.of_nat b * 1048576 + N.of_nat p) * 64 + N.of_nat j) mod 64)%N with (N.of_nat j) by lia.
-  replace ((N.of_nat b * 1048576 + N.of_nat p) mod 1048576)%N with (N.of_nat p) by lia.
-  replace ((N.of_nat b * 1048576 + N.of_nat p) / 1048576)%N with (N.of_nat b) by lia.
-  rewrite !Nnat.Nat2N.id. f_equal. lia.
+  replace (((b * 1048576 + p) * 64 + j) / 64)%N with (b * 1048576 + p)%N by lia.
+  replace (((b * 1048576 + p) * 64 + j) mod 64)%N with j by lia.
+  replace ((b * 1048576 + p) mod 1048576)%N with p by lia.
+  replace ((b * 1048576 + p) / 1048576)%N with b by lia.
+  reflexivity.
 Qed.
 
 (** the symbolic word for word p of buffer b: bits below [width] are variables, the others 0 *)
-Definition symw (b p width : nat) : sval :=
-  SS (map (fun j => if (j <? width)%nat then fvar (enc b p j) else fzero) (seq 0 64)).
+Definition symw (b p : N) (width : nat) : sval :=
+  SS (map (fun j => if (j <? width)%nat then fvar (enc b p (N.of_nat j)) else fzero) (seq 0 64)).
 
-Definition symbuf (b : nat) (sh : nat * nat) : list sval := map (fun p => symw b p (snd sh)) (seq 0 (fst sh)).
+Definition symbuf (b : nat) (sh : nat * nat) : list sval :=
+  map (fun p => symw (N.of_nat b) (N.of_nat p) (snd sh)) (seq 0 (fst sh)).
 
 Fixpoint symbufs (b : nat) (shape : list (nat * nat)) : list (list sval) :=
   match shape with
@@ -163,7 +164,7 @@ Definition fits (buf : list Z) (sh : nat * nat) : Prop :=
 
 Lemma den_symw bufs b p width x :
   (N.of_nat p < BIG)%N -> (width <= 64)%nat -> x = nth p (nth b bufs []) 0 -> 0 <= x < 2 ^ Z.of_nat width ->
-  den (rho_of bufs) (symw b p width) = x.
+  den (rho_of bufs) (symw (N.of_nat b) (N.of_nat p) width) = x.
 Proof.
   intros Hp Hw Hx Hr. unfold symw; cbn [den].
   assert (H64 : 0 <= x < 2 ^ Z.of_nat 64).
@@ -171,12 +172,12 @@ Proof.
   rewrite <- (Z.mod_small x (2 ^ Z.of_nat 64)) by assumption.
   apply bits_eq_mod; [now rewrite !map_length, seq_length|].
   intros i Hi. rewrite nth_map_evalf.
-  rewrite (nth_indep _ fzero ((fun j => if (j <? width)%nat then fvar (enc b p j) else fzero) 0%nat))
+  rewrite (nth_indep _ fzero ((fun j => if (j <? width)%nat then fvar (enc (N.of_nat b) (N.of_nat p) (N.of_nat j)) else fzero) 0%nat))
     by now rewrite map_length, seq_length.
-  rewrite (map_nth (fun j => if (j <? width)%nat then fvar (enc b p j) else fzero)).
+  rewrite (map_nth (fun j => if (j <? width)%nat then fvar (enc (N.of_nat b) (N.of_nat p) (N.of_nat j)) else fzero)).
   rewrite seq_nth by assumption. cbn [Nat.add].
   destruct (Nat.ltb_spec i width) as [Hlt|Hge].
-  - rewrite evalf_fvar, rho_enc by assumption. now subst.
+  - rewrite evalf_fvar, rho_enc by lia. rewrite !Nnat.Nat2N.id. subst. f_equal. lia.
   - rewrite evalf_fzero. destruct (Z.eq_dec x 0) as [->|Hne]; [apply Z.testbit_0_l|].
     apply Z.bits_above_log2; [lia|]. apply Z.lt_le_trans with (Z.of_nat width); [|lia].
     apply Z.log2_lt_pow2; lia.
@@ -191,9 +192,9 @@ Proof.
   - unfold symbuf. rewrite map_map. apply (nth_ext _ _ 0 0).
     + now rewrite map_length, seq_length.
     + intros p Hp. rewrite map_length, seq_length in Hp.
-      rewrite (nth_indep _ 0 ((fun p => den (rho_of (pre ++ buf :: bufs)) (symw (List.length pre) p (snd sh))) 0%nat))
+      rewrite (nth_indep _ 0 ((fun p => den (rho_of (pre ++ buf :: bufs)) (symw (N.of_nat (List.length pre)) (N.of_nat p) (snd sh))) 0%nat))
         by now rewrite map_length, seq_length.
-      rewrite (map_nth (fun p => den (rho_of (pre ++ buf :: bufs)) (symw (List.length pre) p (snd sh)))).
+      rewrite (map_nth (fun p => den (rho_of (pre ++ buf :: bufs)) (symw (N.of_nat (List.length pre)) (N.of_nat p) (snd sh)))).
       rewrite seq_nth by assumption. cbn [Nat.add].
       apply den_symw; [lia|assumption| |].
       * rewrite app_nth2 by lia. now rewrite Nat.sub_diag.
@@ -204,7 +205,7 @@ Qed.
 
 (** * Bit sources *)
 (** where a bit of an output word comes from: constant 0, or bit j of word p of input buffer b *)
-Definition bsrc := option (nat * nat * nat).
+Definition bsrc := option (N * N * N).
 
 Definition src_form (s : bsrc) : form :=
   match s with
@@ -215,22 +216,32 @@ Definition src_form (s : bsrc) : form :=
 Definition src_ok (s : bsrc) : bool :=
   match s with
   | None => true
-  | Some (b, p, j) => (N.of_nat p <? BIG)%N && (j <? 64)%nat
+  | Some (b, p, j) => (p <? BIG)%N && (j <? 64)%N
   end.
 
 Definition src_val (bufs : list (list Z)) (s : bsrc) : bool :=
   match s with
   | None => false
-  | Some (b, p, j) => Z.testbit (nth p (nth b bufs []) 0) (Z.of_nat j)
+  | Some (b, p, j) => Z.testbit (nth (N.to_nat p) (nth (N.to_nat b) bufs []) 0) (Z.of_N j)
   end.
 
-Definition form_eqb (a b : form) : bool :=
-  Bool.eqb (fc a) (fc b) && (if list_eq_dec N.eq_dec (fv a) (fv b) then true else false).
+Fixpoint leqb (a b : list N) : bool :=
+  match a, b with
+  | [], [] => true
+  | x :: a', y :: b' => (x =? y)%N && leqb a' b'
+  | _, _ => false
+  end.
+Lemma leqb_eq a b : leqb a b = true -> a = b.
+Proof.
+  revert b; induction a as [|x a IH]; intros [|y b]; cbn; try discriminate; [reflexivity|].
+  intros H. apply andb_prop in H as [H1 H2]. apply N.eqb_eq in H1. apply IH in H2. now subst.
+Qed.
+
+Definition form_eqb (a b : form) : bool := Bool.eqb (fc a) (fc b) && leqb (fv a) (fv b).
 Lemma form_eqb_eq a b : form_eqb a b = true -> a = b.
 Proof.
   destruct a as [c s], b as [c' s']. unfold form_eqb; cbn [fc fv]. intros H.
-  apply andb_prop in H as [H1 H2]. apply eqb_prop in H1. destruct (list_eq_dec N.eq_dec s s'); [|discriminate].
-  now subst.
+  apply andb_prop in H as [H1 H2]. apply eqb_prop in H1. apply leqb_eq in H2. now subst.
 Qed.
 
 Definition in_w64 (v : sval) : bool :=
@@ -240,24 +251,24 @@ Definition in_w64 (v : sval) : bool :=
   end.
 
 (** output word [o] has exactly the bit sources [e] *)
-Definition chk_word (o : option sval) (e : nat -> bsrc) : bool :=
+Definition chk_word (o : option sval) (e : N -> bsrc) : bool :=
   match o with
-  | Some v => in_w64 v && forallb (fun j => src_ok (e j) && form_eqb (bitf v j) (src_form (e j))) (seq 0 64)
+  | Some v => in_w64 v && forallb (fun j => let s := e (N.of_nat j) in src_ok s && form_eqb (bitf v j) (src_form s)) (seq 0 64)
   | None => false
   end.
 
-Definition chk_buf (o : list (option sval)) (e : nat -> nat -> bsrc) : bool :=
-  forallb (fun p => chk_word (nth p o None) (e p)) (seq 0 (List.length o)).
+Definition chk_buf (o : list (option sval)) (e : N -> N -> bsrc) : bool :=
+  forallb (fun p => chk_word (nth p o None) (e (N.of_nat p))) (seq 0 (List.length o)).
 
-Fixpoint chk_all (b : nat) (out : list (list (option sval))) (e : nat -> nat -> nat -> bsrc) : bool :=
+Fixpoint chk_all (b : nat) (out : list (list (option sval))) (e : nat -> N -> N -> bsrc) : bool :=
   match out with
   | [] => true
   | o :: r => chk_buf o (e b) && chk_all (S b) r e
   end.
 
 (** the check evaluated by [vm_compute]: the symbolic run on buffers of the given [shape] succeeds and the
-    buffers afterwards have the same lengths and the [expected] bit sources *)
-Definition check (f : string) (args : list arg) (shape : list (nat * nat)) (expected : nat -> nat -> nat -> bsrc) : bool :=
+    buffers afterwards have the [expected] bit sources *)
+Definition check (f : string) (args : list arg) (shape : list (nat * nat)) (expected : nat -> N -> N -> bsrc) : bool :=
   forallb (fun sh => (N.of_nat (fst sh) <=? BIG)%N && (snd sh <=? 64)%nat) shape &&
   match runk sops f args (symbufs 0 shape) with
   | Ok out => chk_all 0 out expected
@@ -281,42 +292,43 @@ Qed.
 Lemma chk_word_sound bufs o e :
   chk_word o e = true ->
   exists v, option_map (den (rho_of bufs)) o = Some v /\ w64 v /\
-            forall j, (j < 64)%nat -> Z.testbit v (Z.of_nat j) = src_val bufs (e j).
+            forall j, (j < 64)%nat -> Z.testbit v (Z.of_nat j) = src_val bufs (e (N.of_nat j)).
 Proof.
   destruct o as [v|]; cbn [chk_word]; [|discriminate]. intros H. apply andb_prop in H as [Hw H].
   exists (den (rho_of bufs) v). split; [reflexivity|]. split; [now apply den_in_w64|].
-  intros j Hj. rewrite forallb_forall in H. specialize (H j ltac:(apply in_seq; lia)).
+  intros j Hj. rewrite forallb_forall in H. specialize (H j ltac:(apply in_seq; lia)). cbv zeta in H.
   apply andb_prop in H as [Hok Hf]. apply form_eqb_eq in Hf.
-  rewrite testbit_den, Hf. destruct (e j) as [[[b p] jj]|]; cbn [src_form src_val src_ok] in *.
+  rewrite testbit_den, Hf. destruct (e (N.of_nat j)) as [[[b p] jj]|]; cbn [src_form src_val src_ok] in *.
   - rewrite evalf_fvar. apply rho_enc; lia.
   - apply evalf_fzero.
 Qed.
 
 (** the post-condition in terms of the concrete buffers *)
-Definition post (bufs outs : list (list Z)) (e : nat -> nat -> nat -> bsrc) : Prop :=
+Definition post (bufs outs : list (list Z)) (e : nat -> N -> N -> bsrc) : Prop :=
   List.length outs = List.length bufs /\
   forall b, (b < List.length bufs)%nat ->
     List.length (nth b outs []) = List.length (nth b bufs []) /\
     forall p, (p < List.length (nth b bufs []))%nat ->
       w64 (nth p (nth b outs []) 0) /\
-      forall j, (j < 64)%nat -> Z.testbit (nth p (nth b outs []) 0) (Z.of_nat j) = src_val bufs (e b p j).
+      forall j, (j < 64)%nat ->
+        Z.testbit (nth p (nth b outs []) 0) (Z.of_nat j) = src_val bufs (e b (N.of_nat p) (N.of_nat j)).
 
 Lemma chk_buf_sound bufs o e :
   chk_buf o e = true ->
   exists l, all_some (map (option_map (den (rho_of bufs))) o) = Some l /\ List.length l = List.length o /\
     forall p, (p < List.length o)%nat -> w64 (nth p l 0) /\
-      forall j, (j < 64)%nat -> Z.testbit (nth p l 0) (Z.of_nat j) = src_val bufs (e p j).
+      forall j, (j < 64)%nat -> Z.testbit (nth p l 0) (Z.of_nat j) = src_val bufs (e (N.of_nat p) (N.of_nat j)).
 Proof.
   unfold chk_buf. intros H. rewrite forallb_forall in H.
-  assert (H' : forall p, (p < List.length o)%nat -> chk_word (nth p o None) (e p) = true).
+  assert (H' : forall p, (p < List.length o)%nat -> chk_word (nth p o None) (e (N.of_nat p)) = true).
   { intros p Hp. apply H, in_seq. lia. }
   clear H. revert e H'. induction o as [|x o IH]; intros e H.
   - exists []. repeat split; try reflexivity; cbn in *; lia.
   - destruct (chk_word_sound bufs _ _ (H 0%nat ltac:(cbn; lia))) as (v & Hv & Hw & Hb). cbn [nth] in Hv.
-    destruct (IH (fun p => e (S p))) as (l & Hl & Hlen & Hp).
-    { intros p Hp. apply (H (S p)). cbn. lia. }
+    destruct (IH (fun p => e (N.succ p))) as (l & Hl & Hlen & Hp).
+    { intros p Hp. rewrite <- Nnat.Nat2N.inj_succ. apply (H (S p)). cbn. lia. }
     exists (v :: l). cbn [map all_some]. rewrite Hv, Hl. split; [reflexivity|]. split; [cbn; lia|].
-    intros [|p] Hlt; cbn [nth]; [auto|]. apply Hp. cbn in Hlt. lia.
+    intros [|p] Hlt; cbn [nth]; [auto|]. rewrite Nnat.Nat2N.inj_succ. apply Hp. cbn in Hlt. lia.
 Qed.
 
 Lemma chk_all_sound bufs b out e :
@@ -326,7 +338,8 @@ Lemma chk_all_sound bufs b out e :
     forall i, (i < List.length out)%nat ->
       List.length (nth i outs []) = List.length (nth i out []) /\
       forall p, (p < List.length (nth i out []))%nat -> w64 (nth p (nth i outs []) 0) /\
-        forall j, (j < 64)%nat -> Z.testbit (nth p (nth i outs []) 0) (Z.of_nat j) = src_val bufs (e (b + i)%nat p j).
+        forall j, (j < 64)%nat ->
+          Z.testbit (nth p (nth i outs []) 0) (Z.of_nat j) = src_val bufs (e (b + i)%nat (N.of_nat p) (N.of_nat j)).
 Proof.
   revert b; induction out as [|o out IH]; intros b H.
   - exists []. repeat split; try reflexivity; cbn in *; lia.
@@ -401,13 +414,42 @@ Qed.
     buffer 1 = destination: [m] rows at word stride [rd].  Afterwards the source is unchanged, row i < m of
     the destination is the WHOLE word whose bit j is bit i of source row j (j < n) and 0 for j >= n, and the
     destination words between the rows are unchanged. *)
-Definition exp_T (n m rd rs wsrc : nat) (b p j : nat) : bsrc :=
+Definition exp_T (n m rd rs wsrc : N) (b : nat) (p : N) : N -> bsrc :=
   match b with
-  | O => if (j <? wsrc)%nat then Some (0, p, j)%nat else None
-  | _ => if ((p mod rd =? 0) && (p / rd <? m))%nat
-         then (if (j <? n)%nat then Some (0, j * rs, p / rd)%nat else None)
-         else Some (1, p, j)%nat
+  | O => fun j => if (j <? wsrc)%N then Some (0, p, j)%N else None
+  | _ => let q := (p / rd)%N in
+         if ((p mod rd =? 0) && (q <? m))%N
+         then fun j => if (j <? n)%N then Some (0, j * rs, q)%N else None
+         else fun j => Some (1, p, j)%N
   end.
+Definition exp_Tn (n m rd rs wsrc : nat) :=
+  exp_T (N.of_nat n) (N.of_nat m) (N.of_nat rd) (N.of_nat rs) (N.of_nat wsrc).
+
+Lemma exp_T_src n m rd rs w p j :
+  exp_Tn n m rd rs w 0 (N.of_nat p) (N.of_nat j) = if (j <? w)%nat then Some (0, N.of_nat p, N.of_nat j)%N else None.
+Proof.
+  unfold exp_Tn, exp_T. destruct (N.ltb_spec (N.of_nat j) (N.of_nat w)), (Nat.ltb_spec j w); try reflexivity; lia.
+Qed.
+
+Lemma exp_T_row n m rd rs w i j : (0 < rd)%nat -> (i < m)%nat ->
+  exp_Tn n m rd rs w 1 (N.of_nat (i * rd)) (N.of_nat j) =
+  if (j <? n)%nat then Some (0, N.of_nat (j * rs), N.of_nat i)%N else None.
+Proof.
+  intros Hrd Hi. unfold exp_Tn, exp_T. cbv zeta.
+  rewrite Nnat.Nat2N.inj_mul. rewrite N.mod_mul, N.div_mul by lia. rewrite N.eqb_refl. cbn [andb].
+  destruct (N.ltb_spec (N.of_nat i) (N.of_nat m)); [|lia].
+  destruct (N.ltb_spec (N.of_nat j) (N.of_nat n)), (Nat.ltb_spec j n); try lia; [|reflexivity].
+  now rewrite Nnat.Nat2N.inj_mul.
+Qed.
+
+Lemma exp_T_frame n m rd rs w p j : (0 < rd)%nat -> (p mod rd <> 0 \/ m <= p / rd)%nat ->
+  exp_Tn n m rd rs w 1 (N.of_nat p) (N.of_nat j) = Some (1, N.of_nat p, N.of_nat j)%N.
+Proof.
+  intros Hrd Hp. unfold exp_Tn, exp_T. cbv zeta. rewrite <- Nnat.Nat2N.inj_mod, <- Nnat.Nat2N.inj_div.
+  destruct (N.eqb_spec (N.of_nat (p mod rd)) 0) as [He|He]; cbn [andb]; [|reflexivity].
+  destruct (N.ltb_spec (N.of_nat (p / rd)) (N.of_nat m)) as [Hl|Hl]; [|reflexivity].
+  exfalso. destruct Hp as [Hp|Hp]; lia.
+Qed.
 
 (** shape of the two buffers: the minimal extents that contain the rows *)
 Definition shape_T (n m rd rs wsrc : nat) : list (nat * nat) :=
@@ -423,24 +465,25 @@ Definition strides : list (nat * nat) :=
 
 Lemma t64_sweep :
   forallb (fun s => check "_mzd_copy_transpose_64x64" (args_T (fst s) (snd s) [])
-                          (shape_T 64 64 (fst s) (snd s) 64) (exp_T 64 64 (fst s) (snd s) 64)) strides = true.
-Proof. vm_compute. reflexivity. Qed.
+                          (shape_T 64 64 (fst s) (snd s) 64) (exp_Tn 64 64 (fst s) (snd s) 64)) strides = true.
+Proof. vm_cast_no_check (eq_refl true). Qed.
 
 (** dst == src (the note at mzd.c:249 and the call at mzd.c:935): one buffer, transposed in place *)
-Definition exp_T_inplace (r : nat) (b p j : nat) : bsrc :=
-  if ((p mod r =? 0) && (p / r <? 64))%nat then Some (0, j * r, p / r)%nat else Some (0, p, j)%nat.
+Definition exp_T_inplace (r : nat) (b : nat) (p j : N) : bsrc :=
+  if ((p mod N.of_nat r =? 0) && (p / N.of_nat r <? 64))%N then Some (0, j * N.of_nat r, p / N.of_nat r)%N else Some (0, p, j)%N.
 
 Lemma t64_inplace_sweep :
   forallb (fun r => check "_mzd_copy_transpose_64x64" [AP 1 0; AI 0; AP 1 0; AI 0; AI (Z.of_nat r); AI (Z.of_nat r)]
                           [(63 * r + 1, 64)%nat] (exp_T_inplace r)) [1; 2; 3]%nat = true.
-Proof. vm_compute. reflexivity. Qed.
+Proof. vm_cast_no_check (eq_refl true). Qed.
 
 (** * _mzd_copy_transpose_64x64_2 (mzd.c:330): two independent 64x64 transpositions.
     Buffers 0, 1 = src1, src2; buffers 2, 3 = dst1, dst2. *)
-Definition exp_T2 (rd rs : nat) (b p j : nat) : bsrc :=
+Definition exp_T2 (rd rs : nat) (b : nat) (p j : N) : bsrc :=
   match b with
-  | 0%nat | 1%nat => Some (b, p, j)
-  | _ => if ((p mod rd =? 0) && (p / rd <? 64))%nat then Some (b - 2, j * rs, p / rd)%nat else Some (b, p, j)
+  | 0%nat | 1%nat => Some (N.of_nat b, p, j)
+  | _ => if ((p mod N.of_nat rd =? 0) && (p / N.of_nat rd <? 64))%N
+         then Some (N.of_nat (b - 2), j * N.of_nat rs, p / N.of_nat rd)%N else Some (N.of_nat b, p, j)
   end.
 
 Lemma t64_2_sweep :
@@ -449,7 +492,7 @@ Lemma t64_2_sweep :
            [AP 3 0; AI 0; AP 4 0; AI 0; AP 1 0; AI 0; AP 2 0; AI 0; AI (Z.of_nat (fst s)); AI (Z.of_nat (snd s))]
            [(63 * snd s + 1, 64); (63 * snd s + 1, 64); (63 * fst s + 1, 64); (63 * fst s + 1, 64)]%nat
            (exp_T2 (fst s) (snd s))) strides = true.
-Proof. vm_compute. reflexivity. Qed.
+Proof. vm_cast_no_check (eq_refl true). Qed.
 
 (** * _mzd_copy_transpose_lt64x64 (mzd.c:474): n < 64 source rows of 64 columns -> 64 destination rows,
       every destination word written in full (bits >= n cleared);
@@ -462,16 +505,16 @@ Definition strides2 : list (nat * nat) := [(1, 1); (2, 3); (3, 2)]%nat.
 Lemma lt64x64_sweep :
   forallb (fun s => forallb (fun n =>
      check "_mzd_copy_transpose_lt64x64" (args_T (fst s) (snd s) [Z.of_nat n])
-           (shape_T n 64 (fst s) (snd s) 64) (exp_T n 64 (fst s) (snd s) 64)) sizes63) strides2 = true.
-Proof. vm_compute. reflexivity. Qed.
+           (shape_T n 64 (fst s) (snd s) 64) (exp_Tn n 64 (fst s) (snd s) 64)) sizes63) strides2 = true.
+Proof. vm_cast_no_check (eq_refl true). Qed.
 
 Definition w64xlt (n : nat) : nat := if (32 <? n)%nat then 64%nat else n.
 
 Lemma t64xlt64_sweep :
   forallb (fun s => forallb (fun n =>
      check "_mzd_copy_transpose_64xlt64" (args_T (fst s) (snd s) [Z.of_nat n])
-           (shape_T 64 n (fst s) (snd s) (w64xlt n)) (exp_T 64 n (fst s) (snd s) (w64xlt n))) sizes63) strides2 = true.
-Proof. vm_compute. reflexivity. Qed.
+           (shape_T 64 n (fst s) (snd s) (w64xlt n)) (exp_Tn 64 n (fst s) (snd s) (w64xlt n))) sizes63) strides2 = true.
+Proof. vm_cast_no_check (eq_refl true). Qed.
 
 (** * The theorems *)
 Lemma forallb_In {A} (P : A -> bool) l x : forallb P l = true -> In x l -> P x = true.
@@ -480,10 +523,10 @@ Proof. intros H Hin. rewrite forallb_forall in H. auto. Qed.
 Theorem transpose64_bits rd rs : In (rd, rs) strides ->
   forall src dst, fits src ((63 * rs + 1)%nat, 64%nat) -> fits dst ((63 * rd + 1)%nat, 64%nat) ->
   exists outs, runz "_mzd_copy_transpose_64x64" (args_T rd rs []) [src; dst] = Ok outs /\
-               post [src; dst] outs (exp_T 64 64 rd rs 64).
+               post [src; dst] outs (exp_Tn 64 64 rd rs 64).
 Proof.
   intros Hin src dst Hs Hd.
-  apply (kernel_bits _ _ _ _ (forallb_In _ _ _ t64_sweep Hin)). repeat constructor; assumption.
+  apply (kernel_bits _ _ _ _ (forallb_In _ _ _ t64_sweep Hin)). repeat (first [assumption | apply Forall2_cons | apply Forall2_nil]).
 Qed.
 
 Theorem transpose64_inplace_bits r : In r [1; 2; 3]%nat ->
@@ -492,7 +535,7 @@ Theorem transpose64_inplace_bits r : In r [1; 2; 3]%nat ->
                post [buf] outs (exp_T_inplace r).
 Proof.
   intros Hin buf Hb.
-  apply (kernel_bits _ _ _ _ (forallb_In _ _ _ t64_inplace_sweep Hin)). repeat constructor; assumption.
+  apply (kernel_bits _ _ _ _ (forallb_In _ _ _ t64_inplace_sweep Hin)). repeat (first [assumption | apply Forall2_cons | apply Forall2_nil]).
 Qed.
 
 Theorem transpose64_2_bits rd rs : In (rd, rs) strides ->
@@ -505,7 +548,7 @@ Theorem transpose64_2_bits rd rs : In (rd, rs) strides ->
                post [src1; src2; dst1; dst2] outs (exp_T2 rd rs).
 Proof.
   intros Hin s1 s2 d1 d2 H1 H2 H3 H4.
-  apply (kernel_bits _ _ _ _ (forallb_In _ _ _ t64_2_sweep Hin)). repeat constructor; assumption.
+  apply (kernel_bits _ _ _ _ (forallb_In _ _ _ t64_2_sweep Hin)). repeat (first [assumption | apply Forall2_cons | apply Forall2_nil]).
 Qed.
 
 Lemma In_sizes63 n : (1 <= n < 64)%nat -> In n sizes63.
@@ -514,27 +557,60 @@ Proof. intros H. apply in_seq. lia. Qed.
 Theorem transpose_lt64x64_bits rd rs n : In (rd, rs) strides2 -> (1 <= n < 64)%nat ->
   forall src dst, fits src (((n - 1) * rs + 1)%nat, 64%nat) -> fits dst ((63 * rd + 1)%nat, 64%nat) ->
   exists outs, runz "_mzd_copy_transpose_lt64x64" (args_T rd rs [Z.of_nat n]) [src; dst] = Ok outs /\
-               post [src; dst] outs (exp_T n 64 rd rs 64).
+               post [src; dst] outs (exp_Tn n 64 rd rs 64).
 Proof.
   intros Hin Hn src dst Hs Hd.
   pose proof (forallb_In _ _ _ (forallb_In _ _ _ lt64x64_sweep Hin) (In_sizes63 n Hn)) as H.
-  apply (kernel_bits _ _ _ _ H). repeat constructor; assumption.
+  apply (kernel_bits _ _ _ _ H). repeat (first [assumption | apply Forall2_cons | apply Forall2_nil]).
 Qed.
 
 Theorem transpose_64xlt64_bits rd rs n : In (rd, rs) strides2 -> (1 <= n < 64)%nat ->
   forall src dst, fits src ((63 * rs + 1)%nat, w64xlt n) -> fits dst (((n - 1) * rd + 1)%nat, 64%nat) ->
   exists outs, runz "_mzd_copy_transpose_64xlt64" (args_T rd rs [Z.of_nat n]) [src; dst] = Ok outs /\
-               post [src; dst] outs (exp_T 64 n rd rs (w64xlt n)).
+               post [src; dst] outs (exp_Tn 64 n rd rs (w64xlt n)).
 Proof.
   intros Hin Hn src dst Hs Hd.
   pose proof (forallb_In _ _ _ (forallb_In _ _ _ t64xlt64_sweep Hin) (In_sizes63 n Hn)) as H.
-  apply (kernel_bits _ _ _ _ H). repeat constructor; assumption.
+  apply (kernel_bits _ _ _ _ H). repeat (first [assumption | apply Forall2_cons | apply Forall2_nil]).
 Qed.
 
 (** * [transpose64_spec]: the readable form for the 64x64 kernel.
     For all 64 source rows and any prior content of the destination: the call succeeds, leaves the source
     as it was, destination row i has bit j = source row j bit i, and the destination words between the rows
     are untouched. *)
+Lemma w64_high x k : w64 x -> 64 <= k -> Z.testbit x k = false.
+Proof.
+  intros [Hx0 Hx1] Hk. destruct (Z.eq_dec x 0) as [->|]; [apply Z.testbit_0_l|].
+  apply Z.bits_above_log2; [lia|]. apply Z.lt_le_trans with 64; [|lia]. apply Z.log2_lt_pow2; lia.
+Qed.
+
+Lemma w64_ext x y : w64 x -> w64 y ->
+  (forall j, (j < 64)%nat -> Z.testbit x (Z.of_nat j) = Z.testbit y (Z.of_nat j)) -> x = y.
+Proof.
+  intros Hx Hy H. apply Z.bits_inj'. intros k Hk. destruct (Z.lt_ge_cases k 64) as [Hlt|Hge].
+  - specialize (H (Z.to_nat k) ltac:(lia)). now rewrite Z2Nat.id in H by lia.
+  - now rewrite !w64_high.
+Qed.
+
+Lemma src_val_some bufs b p j :
+  src_val bufs (Some (N.of_nat b, N.of_nat p, N.of_nat j)) = Z.testbit (nth p (nth b bufs []) 0) (Z.of_nat j).
+Proof. cbn [src_val]. now rewrite !Nnat.Nat2N.id, nat_N_Z. Qed.
+
+Lemma fits64 l n : List.length l = n -> Forall w64 l -> fits l (n, 64%nat).
+Proof. intros H1 H2. split; assumption. Qed.
+
+(** the source buffer of a two-buffer transposition is unchanged *)
+Lemma post_T_src n m rd rs src dst outs :
+  Forall w64 src -> post [src; dst] outs (exp_Tn n m rd rs 64) -> nth 0 outs [] = src.
+Proof.
+  intros Hws (Hlen & Hpost). destruct (Hpost 0%nat ltac:(cbn; lia)) as [Hl0 Hp0]. cbn [nth] in Hl0, Hp0.
+  apply (nth_ext _ _ 0 0); [assumption|]. intros p Hp. rewrite Hl0 in Hp. destruct (Hp0 p Hp) as [Hw Hb].
+  apply w64_ext; [assumption| |].
+  - rewrite Forall_forall in Hws. apply Hws, nth_In. lia.
+  - intros j Hj. rewrite (Hb j Hj), exp_T_src. destruct (Nat.ltb_spec j 64); [|lia].
+    exact (src_val_some [src; dst] 0 p j).
+Qed.
+
 Theorem transpose64_spec rd rs : In (rd, rs) strides ->
   forall src dst, List.length src = (63 * rs + 1)%nat -> List.length dst = (63 * rd + 1)%nat ->
   Forall w64 src -> Forall w64 dst ->
@@ -547,36 +623,23 @@ Proof.
   intros Hin src dst Hls Hld Hws Hwd.
   assert (Hrd : (1 <= rd)%nat /\ (1 <= rs)%nat).
   { unfold strides in Hin. cbn [In] in Hin. repeat (destruct Hin as [Hin|Hin]; [inversion Hin; lia|]). contradiction. }
-  destruct (transpose64_bits rd rs Hin src dst) as (outs & Hrun & Hlen & Hpost).
-  { split; [exact Hls|exact Hws]. }
-  { split; [exact Hld|exact Hwd]. }
+  destruct (transpose64_bits rd rs Hin src dst (fits64 _ _ Hls Hws) (fits64 _ _ Hld Hwd)) as (outs & Hrun & Hpost).
+  pose proof (post_T_src _ _ _ _ _ _ _ Hws Hpost) as Hsrc.
+  destruct Hpost as (Hlen & Hpost).
   destruct outs as [|src' [|dst' [|? ?]]]; cbn [List.length] in Hlen; try lia.
-  destruct (Hpost 0%nat ltac:(cbn; lia)) as [Hl0 Hp0]. destruct (Hpost 1%nat ltac:(cbn; lia)) as [Hl1 Hp1].
-  cbn [nth] in Hl0, Hp0, Hl1, Hp1.
-  assert (Hsrc : src' = src).
-  { apply (nth_ext _ _ 0 0); [assumption|]. intros p Hp. rewrite Hl0 in Hp. destruct (Hp0 p Hp) as [Hw Hb].
-    apply Z.bits_inj'. intros k Hk. destruct (Z.lt_ge_cases k 64) as [Hlt|Hge].
-    - specialize (Hb (Z.to_nat k) ltac:(lia)). rewrite Z2Nat.id in Hb by lia. rewrite Hb.
-      cbn [exp_T]. destruct (Nat.ltb_spec (Z.to_nat k) 64); [|lia]. cbn [src_val nth]. f_equal. lia.
-    - assert (Hx : forall x, w64 x -> Z.testbit x k = false).
-      { intros x [Hx0 Hx1]. destruct (Z.eq_dec x 0) as [->|]; [apply Z.testbit_0_l|].
-        apply Z.bits_above_log2; [lia|]. apply Z.lt_le_trans with 64; [|lia]. apply Z.log2_lt_pow2; lia. }
-      rewrite (Hx _ Hw). symmetry. apply Hx. rewrite Forall_forall in Hws. apply Hws, nth_In. lia. }
-  subst src'. exists dst'. split; [exact Hrun|]. split; [exact Hl1|]. split; [|split].
+  cbn [nth] in Hsrc. subst src'.
+  destruct (Hpost 1%nat ltac:(cbn; lia)) as [Hl1 Hp1]. cbn [nth] in Hl1, Hp1.
+  exists dst'. split; [exact Hrun|]. split; [exact Hl1|]. split; [|split].
   - rewrite Forall_forall. intros x Hx. destruct (In_nth _ _ 0 Hx) as (p & Hp & <-).
     apply Hp1. lia.
   - intros i j Hi Hj. destruct (Hp1 (i * rd)%nat ltac:(nia)) as [_ Hb]. rewrite (Hb j Hj).
-    cbn [exp_T]. rewrite Nat.mod_mul by lia. rewrite Nat.div_mul by lia.
-    destruct (Nat.ltb_spec i 64); [|lia]. cbn [Nat.eqb andb]. destruct (Nat.ltb_spec j 64); [|lia].
-    cbn [src_val nth]. reflexivity.
+    rewrite exp_T_row by lia. destruct (Nat.ltb_spec j 64); [|lia].
+    exact (src_val_some [src; dst] 0 (j * rs) i).
   - intros p Hp Hmod. destruct (Hp1 p Hp) as [Hw Hb].
-    apply Z.bits_inj'. intros k Hk. destruct (Z.lt_ge_cases k 64) as [Hlt|Hge].
-    + specialize (Hb (Z.to_nat k) ltac:(lia)). rewrite Z2Nat.id in Hb by lia. rewrite Hb.
-      cbn [exp_T]. destruct (Nat.eqb_spec (p mod rd) 0); [lia|]. cbn [andb src_val nth]. f_equal. lia.
-    + assert (Hx : forall x, w64 x -> Z.testbit x k = false).
-      { intros x [Hx0 Hx1]. destruct (Z.eq_dec x 0) as [->|]; [apply Z.testbit_0_l|].
-        apply Z.bits_above_log2; [lia|]. apply Z.lt_le_trans with 64; [|lia]. apply Z.log2_lt_pow2; lia. }
-      rewrite (Hx _ Hw). symmetry. apply Hx. rewrite Forall_forall in Hwd. apply Hwd, nth_In. lia.
+    apply w64_ext; [assumption| |].
+    + rewrite Forall_forall in Hwd. apply Hwd, nth_In. lia.
+    + intros j Hj. rewrite (Hb j Hj), exp_T_frame by (try lia; now left).
+      exact (src_val_some [src; dst] 1 p j).
 Qed.
 
 (** hypotheses are satisfiable; a concrete run: the identity pattern stays, a single bit moves *)
